@@ -63,6 +63,9 @@ def run_session(kind, auto, schedule, hb_plan=(), seed=0, connect_plan=(), disc_
                 elif e in ("sess_close", "sess_timeout", "sess_close_tcp"):          # the server ends the secure session under the tunnel
                     if getattr(sim, "srv", None) is not None:
                         sim.server_session_status("STATUS_TIMEOUT" if e == "sess_timeout" else "STATUS_CLOSE", then_close=e.endswith("tcp"))
+                elif e == "oo_frame":             # a frame of the server with a counter two ahead (one was lost on the way): the tunnel gives the missing one
+                    if sim.chan is not None:      # two seconds to arrive before it gives up the connection
+                        sim.server_tunnelling_request(sim.chan, (getattr(getattr(sim.tun, "_sequence", None), "expected", 0) + 2) % 256, 77)
                 elif e == "user_disc" and not st["user"]:
                     st["task"] = asyncio.ensure_future(user_disc())
                 elif e == "send" and not st["user"]:                 # a telegram handed to the tunnel at this instant (it may have to wait for the tunnel)
@@ -194,6 +197,11 @@ def run(ck):
             # a telegram whose acknowledgements never come (two tries of 1 s each) while the user disconnects: nothing may be sent, and no
             # reconnect may start, once disconnect() has returned
             if kind == "udp":
+                # an out-of-order frame arms the tunnel's two-second timer; the user disconnects before it fires, at it, after it
+                t0 = 20.0
+                for d in (None, 0.2, 1.0, 1.9, 2.0, 2.1, 3.5) if ck.tier == "quick" else [None] + [x / 10 for x in range(1, 40, 2)]:
+                    plans.append((kind, auto, [(("t", t0), "oo_frame")] + ([(("t", t0 + d), "user_disc")] if d is not None else []), ()))
+                    plans.append((kind, auto, [(("t", t0), "oo_frame"), (("t", t0 + 0.7), "oo_frame")] + ([(("t", t0 + d), "user_disc")] if d is not None else []), ()))
                 for dp in ((), ("lost",)):
                     for d in (0.2, 0.6, 1.1, 1.5, 1.9, 2.05) if ck.tier == "quick" else [x / 20 for x in range(1, 50)]:
                         plans.append((kind, auto, [(("t", d), "user_disc")], (), {"tun_plan": ["lost"] * 4, "disc_plan": list(dp)}))
